@@ -47,10 +47,10 @@ const char* property_id() { return "C16"; }
 unsigned case_timeout_s() { return 300; }
 #ifdef C16_STRING_ITEMS
 static const uint64_t NSTAT_QUICK = 2, NSTAT_THOROUGH = 4;
-uint64_t num_cases(bool thorough) { return thorough ? NSTAT_THOROUGH + 40000 : NSTAT_QUICK + 1500; }
+uint64_t num_cases(bool thorough) { return thorough ? NSTAT_THOROUGH + 25000 : NSTAT_QUICK + 1500; }
 #else
 static const uint64_t NSTAT_QUICK = 10, NSTAT_THOROUGH = 20;
-uint64_t num_cases(bool thorough) { return thorough ? NSTAT_THOROUGH + 200000 : NSTAT_QUICK + 6000; }
+uint64_t num_cases(bool thorough) { return thorough ? NSTAT_THOROUGH + 150000 : NSTAT_QUICK + 6000; }
 #endif
 void final_report() {}
 
